@@ -188,6 +188,11 @@ pub assume_specification<T> [core::iter::once] (v: T) -> (r: core::iter::Once<T>
 #[verifier::reject_recursive_types(T)]
 pub struct ExChunksExactMut<'a, T: 'a>(core::slice::ChunksExactMut<'a, T>);
 
+#[verifier::external_type_specification]
+#[verifier::external_body]
+#[verifier::reject_recursive_types(T)]
+pub struct ExArrayIntoIter<T, const N: usize>(core::array::IntoIter<T, N>);
+
 /// `<[T]>::chunks_exact_mut` (std): chunk i aliases s[i*n .. i*n+n]; what is written through the chunks is what the
 /// slice holds afterwards; the tail beyond the last whole chunk is untouched.  Assumed (std contract); cross-checked
 /// by the bounded Kani transport harnesses.
@@ -215,8 +220,10 @@ pub fn min_u32(a: u32, b: u32) -> (r: u32) ensures r == (if a <= b { a } else { 
 /// "the value is a finite, lawful stream": what `for all finite sequences` means formally (input assumption)
 pub uninterp spec fn iter_lawful<T: IntoIterator>(t: T) -> bool;
 /// the items the stream yields (prophetic: the items that will be consumed)
+#[verifier::prophetic]
 pub uninterp spec fn iter_yields<T: IntoIterator>(t: T) -> Seq<T::Item>;
 /// the stream will be consumed up to its end
+#[verifier::prophetic]
 pub uninterp spec fn iter_ends<T: IntoIterator>(t: T) -> bool;
 /// R9: `X.into_iter()` for a value of generic `impl IntoIterator` type (vstd gives the generic call no postcondition).
 #[verifier::external_body]
@@ -224,6 +231,30 @@ pub fn into_iter<T: IntoIterator>(t: T) -> (r: T::IntoIter)
     requires iter_lawful(t)
     ensures r.obeys_prophetic_iter_laws(), r.decrease() is Some, r.remaining() == iter_yields(t), r.will_return_none() == iter_ends(t)
 { t.into_iter() }
+/// R13 (mode `array`): `for x in <array by value>`; A-array-iter: yields the elements in order, then ends (core; assumed)
+#[verifier::external_body]
+pub fn array_into_iter<T, const N: usize>(a: [T; N]) -> (r: core::array::IntoIter<T, N>)
+    ensures r.obeys_prophetic_iter_laws(), r.decrease() is Some, r.remaining() == a@
+{ a.into_iter() }
+/// R18: `(0..count).map(|_| pixel)`; A-map-const: yields `count` copies of the value and then ends (core's Range and
+/// Map; assumed, cross-checked by the bounded Kani harness c07_send_repeated_pixel_bounded)
+#[verifier::external_body]
+pub fn repeat_n<T: Copy>(count: u32, v: T) -> (r: impl Iterator<Item = T>)
+    ensures iter_lawful(r), iter_yields(r) == Seq::new(count as nat, |i: int| v)
+{ (0..count).map(move |_| v) }
+pub proof fn lemma_flat_const<W, const N: usize>(pixel: [W; N], cnt: int)
+    requires cnt >= 0, N > 0
+    ensures flat(Seq::new(cnt as nat, |i: int| pixel)) == rep(pixel, cnt)
+{
+    let l = flat(Seq::new(cnt as nat, |i: int| pixel));
+    let r = rep(pixel, cnt);
+    assert(l.len() == r.len());
+    assert forall|k: int| 0 <= k < l.len() implies l[k] == r[k] by {
+        let j = k / (N as int);
+        assert(0 <= j < cnt) by(nonlinear_arith) requires 0 <= k < cnt * N, N > 0, j == k / (N as int);
+    }
+    assert(l =~= r);
+}
 /// A-yields: for a value that already is an iterator, `into_iter` is the identity (core's blanket impl)
 #[verifier::external_body]
 pub broadcast proof fn axiom_iter_is_into_iter<I: Iterator>(i: I)
